@@ -63,9 +63,10 @@ type inboundRun struct {
 	bigCuts  int
 	viol     bool
 
-	violations    int
-	sessionsLost  int
-	sessionLostAt []int64
+	violations       int
+	competitorFailed int
+	sessionsLost     int
+	sessionLostAt    []int64
 }
 
 type genRead struct {
@@ -219,6 +220,14 @@ func runInbound(c *run.Ctx, ip inboundParams) *inboundRun {
 			// application holds the previous return
 			ir.competed++
 			d := ep.D
+			if c.Rng.Intn(4) == 0 {
+				// that request's own write fails: the connection is set pending by
+				// somebody else than the read routine, which still owes what it owes
+				w.Mu.Lock()
+				failNext = 2
+				w.Mu.Unlock()
+				ir.competitorFailed++
+			}
 			switch c.Rng.Intn(4) {
 			case 0:
 				ir.calls = append(ir.calls, d.Go("Publish", func() error { return d.C.Publish(nil, []byte("x"), "out/0") }))
@@ -669,6 +678,7 @@ func init() {
 			c.Count("returns_followed_by_invocation", pauses)
 			c.Count("messages_sent_by_broker", len(ir.msgs))
 			c.Count("competing_requests", ir.competed)
+			c.Count("competing_requests_whose_write_failed", ir.competitorFailed)
 			c.Count("connection_breaks", ir.breaks)
 			c.Count("breaks_inside_a_big_payload", ir.bigCuts)
 			c.Count("acknowledgements_lost", ir.lostAcks)
